@@ -10,13 +10,14 @@ import (
 )
 
 type Query struct {
-	Path   string
-	SMT    string
-	Result string // unsat, sat, unknown, timeout, error
-	Solver string
-	Ms     int64
-	Out    string
-	Goal   string
+	Path    string
+	SMT     string
+	Result  string // unsat, sat, unknown, timeout, error
+	Solver  string
+	Ms      int64
+	Out     string
+	Goal    string
+	Retried bool // re-run with a larger budget after the first pass timed out
 }
 
 type Obligation struct {
@@ -119,6 +120,7 @@ type fnCtx struct {
 	nquery     int
 	aborted    string
 	closures   map[string]*closureInfo
+	freeCells  map[string]Val // captured variables (closure under verification): name -> cell address
 	top        *frame
 	exitHooks  []func(st *State, fr *frame, exceptional bool)
 }
